@@ -57,6 +57,13 @@ Inductive out :=
 
 Definition state := list (logid * bytes).
 
+(* internal/http/server.go: update() answers 409 + the body for FailedPrecondition and 500
+   for every other error (including NotFound: it calls httpForCode on the constant 500);
+   getSTH() maps the status code through httpForCode *)
+Definition http_status_update (e : eclass) : N := match e with EOk => 200 | EFailedPre => 409 | _ => 500 end.
+Definition http_status_get (e : eclass) : N :=
+  match e with EOk => 200 | ENotFound => 404 | EFailedPre => 409 | EOther => 500 end.
+
 Fixpoint lookup (st : state) (id : logid) : option bytes :=
   match st with
   | [] => None
